@@ -89,7 +89,7 @@ def target_form(show):
 def run(ctx):
     facts = ctx.facts()
     ctx._c04_facts = facts or {}
-    thms = ctx.build_and_audit(["NutsProofs.Props.C04", "NutsProofs.Props.C04L", "NutsProofs.Props.C04J", "NutsProofs.Props.C04C", "NutsProofs.Props.C04K"])
+    thms = ctx.build_and_audit(["NutsProofs.Props.C04", "NutsProofs.Props.C04L", "NutsProofs.Props.C04J", "NutsProofs.Props.C04C", "NutsProofs.Props.C04K", "NutsProofs.Props.C04H"])
     required = ["no_bypass", "granted_sound", "denied_is_401_no_effect", "denied_guarded_runs_nothing", "internal_never_public",
                 "same_address_shared", "configured_binds", "requestURI_selector_admits_bypass", "requestURI_selector_admits_query_bypass",
                 "without_exp_check_zero_exp_never_expires", "atLeastOne_rule_admits_two_signatures",
@@ -112,7 +112,10 @@ def run(ctx):
                 "token_auth_on_the_command_line_is_enforced", "config_text_to_no_bypass", "config_text_to_listener_separation",
                 # round 3: the strength rule on the bytes of the key blob
                 "fact_rsa_measure_is_bit_length", "bitLen_spec", "bitLen_ge_iff", "sizeBits_bounds", "secure_blob_kinds", "rsa_blob_secure_iff",
-                "size_rule_admits_weak_modulus", "authorized_blob_keys_sound"]
+                "size_rule_admits_weak_modulus", "authorized_blob_keys_sound",
+                # round 3: header block -> Header.Get("Authorization") -> decision
+                "headerGet_first", "headerGet_none", "later_authorization_lines_are_ignored", "no_authorization_line_is_denied",
+                "header_block_granted_sound"]
     for r in required:
         if not any(t.endswith("Props." + r) for t in thms):
             ctx.oblige("thm-present:" + r, False, "theorem missing or its module does not build")
@@ -235,6 +238,7 @@ def http_part(ctx, out):
     engines = cfg.get("engines", {})
 
     forms, statuses, creds, methods = Counter(), Counter(), Counter(), Counter()
+    hshapes = Counter()
     distinct = set()
     seen_sig = set()
     bursts = {}
@@ -336,8 +340,10 @@ def http_part(ctx, out):
         statuses[status] += 1
         creds[op["cred"]] += 1
         methods[op["m"]] += 1
+        if op.get("hbk"):
+            hshapes[op["hbk"]] += 1
         if status in (200, 204, 401, 405):
-            distinct.add((op["eng"], op["lis"], op["m"], op["t"], op["cred"]))
+            distinct.add((op["eng"], op["lis"], op["m"], op["t"], op["cred"], op.get("hbk", "")))
         eng = engines.get(op["eng"], {})
 
         if op.get("tag") == "burst":
@@ -372,7 +378,8 @@ def http_part(ctx, out):
                 ctx.violation(sig, f"{what}: {op['m']} {op.get('show')} on engine {op['eng']}/{op['lis']} with credential '{op['cred']}' -> {line}",
                               f"{kind}-{form}.jsonl", "\n".join(lim_legs.get(op["eng"], [])))
                 return
-            ctx.violation(sig, f"{what}: {op['m']} {op.get('show')} on engine {op['eng']}/{op['lis']} with credential '{op['cred']}' -> {line}",
+            shape = f" (header block '{op['hbk']}': {[bytes.fromhex(h)[:40] for h in op.get('hb', [])]})" if op.get("hbk") else ""
+            ctx.violation(sig, f"{what}: {op['m']} {op.get('show')} on engine {op['eng']}/{op['lis']} with credential '{op['cred']}'{shape} -> {line}",
                           f"{kind}-{form}.jsonl", ops[i])
 
         # O1 no_bypass: an /internal canary ran although the request carried no acceptable token (or saw another user)
@@ -417,7 +424,7 @@ def http_part(ctx, out):
 
     correspondence(ctx, "http", impl, model, bad, ops, o_bypass + o_401 + o_public + o_cfg + o_abort + o_429 + o_overlap + o_lim + o_drain)
     d = {"requests": n_req, "target_forms": dict(forms), "status": {str(k): v for k, v in sorted(statuses.items())},
-         "credential_kinds": dict(creds), "methods": dict(methods), "other_differential_lines": len(impl) - n_req}
+         "credential_kinds": dict(creds), "methods": dict(methods), "header_block_shapes": dict(hshapes), "other_differential_lines": len(impl) - n_req}
     ctx.cov["samples"] = [ops[1][:300] if len(ops) > 1 else "", impl[1][:100] if len(impl) > 1 else ""]
     return len(impl), len(bad), d, distinct
 
